@@ -1,4 +1,4 @@
-import LyModel.Yin.Parse
+import LyModel.Yin.Ok
 /-! driver ops of component `yin` (same ops as `harness/wb_yin.c`)
 
 Tree syntax (no blanks): statement `S<name>:<N|E|K<keyword>>:<arg|N>:<flags>{<statements>}`, extension instance
@@ -104,6 +104,11 @@ def sameNsIn (ns : List XNs) (p q : Bytes) : Bool :=
   let modOf (x : Bytes) : Option Bytes := (nsGet ns (if x.isEmpty then none else some x)).filter (known.contains ·)
   modOf p == modOf q
 
+/-- the declarations `tools/checks/yincomp.py` puts on the start tag (`NSDECL`) -/
+def checkNs : List XNs :=
+  [⟨some "u".toUTF8.toList, "urn:unknown".toUTF8.toList, 1⟩, ⟨some "h".toUTF8.toList, "urn:gb".toUTF8.toList, 1⟩,
+   ⟨some "g".toUTF8.toList, "urn:ga".toUTF8.toList, 1⟩, ⟨none, Generated.yinNsUri, 1⟩]
+
 def handle (op : String) (args : List String) : String :=
   match op, args with
   | "prstmt", [fmt, lvl, t] =>
@@ -139,6 +144,15 @@ def handle (op : String) (args : List String) : String :=
           | .ok (a, l') => "ok " ++ Hex.enc n ++ " " ++ (match a with | some a => Hex.enc a | none => "N") ++ " " ++ serList l'
           | .error _ => "err Resolve"
     | _, _ => "err BadArg"
+  | "yinok", [t] =>
+    -- model only: `yinOkList` / `extOk` under the namespaces the check declares on the start tag
+    match stmtsOf t with
+    | some ss => "ok " ++ (if yinOkList checkNs .ext ss then "1" else "0")
+    | none => "err BadArg"
+  | "extok", [t] =>
+    match extsOf t with
+    | some [e] => "ok " ++ (if extOk checkNs e then "1" else "0")
+    | _ => "err BadArg"
   | _, _ => "err BadOp"
 
 end LyModel.Yin.Drv
